@@ -34,6 +34,42 @@ def shard(case):
     return "%s|%s|%s" % (case["op"], case["rasters"][0]["data"].dtype, case["params"].get("func", ""))
 
 
+OP_COST = {"generate_terrain": 14.0, "perlin": 4.0, "focal_stats": 4.0, "focal_apply": 2.5, "hotspots": 2.5,
+           "convolution_2d": 2.0, "true_color": 2.5, "summarize_terrain": 2.0, "focal_mean": 1.5, "hillshade": 1.2}
+_ASSIGN = {}
+
+
+def assignment(nworkers, tier):
+    """shard -> worker, longest-processing-time first, so that every worker advances through the run
+    indices at a similar pace (a worker that owns the slow shards would otherwise starve the cheap
+    shards it also owns).  Computed identically in every worker."""
+    key = (nworkers, tier)
+    if key in _ASSIGN:
+        return _ASSIGN[key]
+    dts = ["uint8", "int32", "int64", "float32", "float64"] if tier == "quick" else \
+        [str(np.dtype(d)) for d in g.ALL_DTYPES]
+    weights = dict(WEIGHTS)
+    shards = []
+    for op in FUNCS:
+        op_dts = ["float32", "float64"] if op in ("perlin", "generate_terrain") else dts
+        funcs = [""]
+        if op == "focal_apply":
+            funcs = ["mean", "sum", "max", "std", "user_posweight"] if tier == "quick" else \
+                ["mean", "sum", "min", "max", "std", "range", "var", "user_posweight", "user_count"]
+        for dt in op_dts:
+            for f in funcs:
+                cost = OP_COST.get(op, 1.0) * weights[op] / (len(op_dts) * len(funcs))
+                shards.append((cost, "%s|%s|%s" % (op, dt, f)))
+    loads = [0.0] * nworkers
+    out = {}
+    for cost, name in sorted(shards, key=lambda x: (-x[0], x[1])):
+        w = min(range(nworkers), key=lambda k: (loads[k], k))
+        out[name] = w
+        loads[w] += cost
+    _ASSIGN[key] = out
+    return out
+
+
 def gen_dask_config(rng):
     cfg = {}
     r = rng.random()
